@@ -590,66 +590,117 @@ type c13Res struct {
 	Dec    []*string
 }
 
-func c13RunRow(types, flags []int, row []c13Cell) (res c13Res) {
-	res.Col = -1
+// c13RunResult sends all rows of one result set through the real code in one piece - every
+// row through ParseText, then ONE BuildBinaryResultSet call for the whole set, as
+// Session.writeResponse does - and only then decodes and compares every binary row, so that
+// state leaking from one row into another (NULL bitmap, reused buffers, bytes of an earlier
+// row, an earlier row overwritten by a later one) is seen by the oracle.
+func c13RunResult(types, flags []int, rows [][]c13Cell) (out []c13Res) {
+	out = make([]c13Res, len(rows))
+	for i := range out {
+		out[i].Col = -1
+	}
 	defer func() {
 		if r := recover(); r != nil {
-			res.Clause, res.Detail = "panic", fmt.Sprint(r)
+			for i := range out {
+				out[i] = c13Res{Clause: "panic", Col: -1, Detail: fmt.Sprint(r)}
+			}
 		}
 	}()
 	fields := make([]*Field, len(types))
 	cols := make([]mycli.Col, len(types))
-	var wire []byte
-	texts := make([][]byte, len(types))
 	for i := range types {
 		fields[i] = &Field{Name: []byte(fmt.Sprintf("c%d", i)), Type: uint8(types[i]), Flag: uint16(flags[i])}
 		cols[i] = mycli.Col{Name: fmt.Sprintf("c%d", i), Type: byte(types[i]), Flags: uint16(flags[i])}
-		if row[i].Null {
-			wire = append(wire, 0xfb)
+	}
+	texts := make([][][]byte, len(rows))
+	var values [][]interface{}
+	var idx []int // result row -> input row
+	for ri, row := range rows {
+		var wire []byte
+		texts[ri] = make([][]byte, len(types))
+		for i := range types {
+			if row[i].Null {
+				wire = append(wire, 0xfb)
+				continue
+			}
+			texts[ri][i], _ = hex.DecodeString(row[i].Text)
+			wire = append(wire, mycli.LenEncBytes(texts[ri][i])...)
+		}
+		vals, err := RowData(wire).ParseText(fields)
+		if err != nil {
+			out[ri].Err, out[ri].Detail = "parse", err.Error()
 			continue
 		}
-		texts[i], _ = hex.DecodeString(row[i].Text)
-		wire = append(wire, mycli.LenEncBytes(texts[i])...)
+		values = append(values, vals)
+		idx = append(idx, ri)
 	}
-	vals, err := RowData(wire).ParseText(fields)
-	if err != nil {
-		res.Err, res.Detail = "parse", err.Error()
+	if len(values) == 0 {
 		return
 	}
-	result := &Result{Resultset: &Resultset{Fields: fields, Values: [][]interface{}{vals}}}
+	result := &Result{Resultset: &Resultset{Fields: fields, Values: values}}
 	if err := result.BuildBinaryResultSet(); err != nil {
-		res.Err, res.Detail = "build", err.Error()
-		return
-	}
-	if len(result.RowDatas) != 1 {
-		res.Clause, res.Detail = "row-count", fmt.Sprintf("%d binary rows for 1 text row", len(result.RowDatas))
-		return
-	}
-	bin := result.RowDatas[0]
-	dec, err := mycli.DecodeBinaryRow(cols, bin)
-	if err != nil {
-		res.Clause, res.Detail = "undecodable", fmt.Sprintf("%v; binary row % x", err, c13Head(bin, 48))
-		return
-	}
-	res.Dec = dec
-	for i := range types {
-		switch {
-		case row[i].Null && dec[i] != nil:
-			res.Clause, res.Col, res.Detail = "null-became-value", i, fmt.Sprintf("column %d: NULL decoded as %q", i, c13Clip(*dec[i]))
+		if len(idx) == 1 {
+			out[idx[0]].Err, out[idx[0]].Detail = "build", err.Error()
 			return
-		case !row[i].Null && dec[i] == nil:
-			res.Clause, res.Col, res.Detail = "value-became-null", i, fmt.Sprintf("column %d: %q decoded as NULL", i, c13Clip(string(texts[i])))
-			return
-		case row[i].Null:
+		}
+		// the whole result set is refused; attribute the refusal row by row
+		for _, ri := range idx {
+			out[ri] = c13RunResult(types, flags, rows[ri:ri+1])[0]
+			if out[ri].Err == "" && out[ri].Clause == "" {
+				out[ri].Err, out[ri].Detail = "build", "refused as part of a result set: "+err.Error()
+			}
+		}
+		return
+	}
+	if len(result.RowDatas) != len(idx) {
+		for _, ri := range idx {
+			out[ri].Clause, out[ri].Detail = "row-count", fmt.Sprintf("%d binary rows for %d text rows", len(result.RowDatas), len(idx))
+		}
+		return
+	}
+	for k, ri := range idx {
+		row, res, bin := rows[ri], &out[ri], result.RowDatas[k]
+		where := ""
+		if len(rows) > 1 {
+			where = fmt.Sprintf("row %d of %d, ", ri, len(rows))
+		}
+		dec, err := mycli.DecodeBinaryRow(cols, bin)
+		if err != nil {
+			res.Clause, res.Detail = "undecodable", fmt.Sprintf("%s%v; binary row % x", where, err, c13Head(bin, 48))
 			continue
 		}
-		if cl := c13Compare(c13TypeOf(types[i]), texts[i], *dec[i]); cl != "" {
-			res.Clause, res.Col = cl, i
-			res.Detail = fmt.Sprintf("column %d (%s): text %q decoded as %q; binary row % x", i, c13TypeOf(types[i]).Name, c13Clip(string(texts[i])), c13Clip(*dec[i]), c13Head(bin, 48))
-			return
+		res.Dec = dec
+		for i := range types {
+			if row[i].Null && dec[i] != nil {
+				res.Clause, res.Col, res.Detail = "null-became-value", i, fmt.Sprintf("%scolumn %d: NULL decoded as %q; binary row % x", where, i, c13Clip(*dec[i]), c13Head(bin, 48))
+				break
+			}
+			if !row[i].Null && dec[i] == nil {
+				res.Clause, res.Col, res.Detail = "value-became-null", i, fmt.Sprintf("%scolumn %d: %q decoded as NULL; binary row % x", where, i, c13Clip(string(texts[ri][i])), c13Head(bin, 48))
+				break
+			}
+			if row[i].Null {
+				continue
+			}
+			if cl := c13Compare(c13TypeOf(types[i]), texts[ri][i], *dec[i]); cl != "" {
+				res.Clause, res.Col = cl, i
+				res.Detail = fmt.Sprintf("%scolumn %d (%s): text %q decoded as %q; binary row % x", where, i, c13TypeOf(types[i]).Name, c13Clip(string(texts[ri][i])), c13Clip(*dec[i]), c13Head(bin, 48))
+				break
+			}
 		}
 	}
 	return
+}
+
+// c13First returns the first refuted row of a result.
+func c13First(rs []c13Res) (int, c13Res) {
+	for i, r := range rs {
+		if r.Clause != "" {
+			return i, r
+		}
+	}
+	return -1, c13Res{}
 }
 
 func c13Head(b []byte, n int) []byte {
@@ -688,38 +739,64 @@ func c13FlagNames(fl int) string {
 }
 
 func c13Sig(c c13Case, clause string) string {
-	parts := []string{}
-	for i, tc := range c.Types {
-		p := c13TypeOf(tc).Name + c13FlagNames(c.Flags[i])
-		if c.Rows[0][i].Null {
-			p += ":NULL"
-		} else {
-			p += ":" + c.Rows[0][i].Class
+	rows := []string{}
+	for _, row := range c.Rows {
+		parts := []string{}
+		for i, tc := range c.Types {
+			p := c13TypeOf(tc).Name + c13FlagNames(c.Flags[i])
+			if row[i].Null {
+				p += ":NULL"
+			} else {
+				p += ":" + row[i].Class
+			}
+			parts = append(parts, p)
 		}
-		parts = append(parts, p)
+		rows = append(rows, strings.Join(parts, ","))
 	}
-	return clause + "/" + strings.Join(parts, ",")
+	return clause + "/" + strings.Join(rows, " ; ")
 }
 
-// shrink: keep the failing row, greedily drop columns while the row still fails any oracle
-// clause (a mis-framed column can surface as a different clause in a later column, so the
-// clause is re-read from the reduced row), then drop flags and (if the simplest value of the
-// type fails the same way) the value class while that clause keeps failing.
-func (m *c13Mon) shrink(c c13Case, row int, clause string) (c13Case, string) {
-	c = c13Case{Types: append([]int{}, c.Types...), Flags: append([]int{}, c.Flags...), Rows: [][]c13Cell{append([]c13Cell{}, c.Rows[row]...)}}
+func c13Clone(c c13Case) c13Case {
+	x := c13Case{Types: append([]int{}, c.Types...), Flags: append([]int{}, c.Flags...)}
+	for _, row := range c.Rows {
+		x.Rows = append(x.Rows, append([]c13Cell{}, row...))
+	}
+	return x
+}
+
+// shrink: greedily drop rows, then columns, while some row of the result still fails any
+// oracle clause (a mis-framed column or a leak from another row can surface as a different
+// clause elsewhere, so the clause is re-read from the reduced case); then, while that clause
+// keeps failing, replace column types by TINY, drop flags and replace values by the simplest
+// value of the type.
+func (m *c13Mon) shrink(c c13Case, clause string) (c13Case, string) {
+	c = c13Clone(c)
 	failing := func(x c13Case) string {
 		m.rec.Count("shrink.reruns", 1)
-		return c13RunRow(x.Types, x.Flags, x.Rows[0]).Clause
+		_, r := c13First(c13RunResult(x.Types, x.Flags, x.Rows))
+		return r.Clause
+	}
+	for changed := true; changed && len(c.Rows) > 1; {
+		changed = false
+		for j := len(c.Rows) - 1; j >= 0 && len(c.Rows) > 1; j-- {
+			x := c13Clone(c)
+			x.Rows = append(x.Rows[:j], x.Rows[j+1:]...)
+			if cl := failing(x); cl != "" {
+				c, clause, changed = x, cl, true
+			}
+		}
 	}
 	for changed := true; changed && len(c.Types) > 1; {
 		changed = false
 		for j := 0; j < len(c.Types) && len(c.Types) > 1; j++ {
-			x := c13Case{Rows: [][]c13Cell{{}}}
+			x := c13Case{Rows: make([][]c13Cell, len(c.Rows))}
 			for k := range c.Types {
 				if k != j {
 					x.Types = append(x.Types, c.Types[k])
 					x.Flags = append(x.Flags, c.Flags[k])
-					x.Rows[0] = append(x.Rows[0], c.Rows[0][k])
+					for ri := range c.Rows {
+						x.Rows[ri] = append(x.Rows[ri], c.Rows[ri][k])
+					}
 				}
 			}
 			if cl := failing(x); cl != "" {
@@ -728,7 +805,28 @@ func (m *c13Mon) shrink(c c13Case, row int, clause string) (c13Case, string) {
 			}
 		}
 	}
+	simplest := func(code, fl int) c13Cell {
+		t := c13TypeOf(code)
+		cls := c13Classes(t.Fam, fl&c13Unsigned != 0)
+		if len(cls) == 0 {
+			return c13Cell{Null: true}
+		}
+		return c13Cell{Text: hex.EncodeToString(c13Value(t, fl&c13Unsigned != 0, cls[0], kit.NewRand(7))), Class: cls[0]}
+	}
 	for j := range c.Types {
+		if len(c.Rows) > 1 && c.Types[j] != 0x01 {
+			// a failure that needs several rows is rarely about the type: try TINY
+			x := c13Clone(c)
+			x.Types[j], x.Flags[j] = 0x01, 0
+			for ri := range x.Rows {
+				if !x.Rows[ri][j].Null {
+					x.Rows[ri][j] = simplest(0x01, 0)
+				}
+			}
+			if failing(x) == clause {
+				c = x
+			}
+		}
 		for _, b := range []int{c13Binary, c13Zerofill, c13NotNull, c13Unsigned} {
 			if c.Flags[j]&b != 0 {
 				c.Flags[j] &^= b
@@ -737,14 +835,15 @@ func (m *c13Mon) shrink(c c13Case, row int, clause string) (c13Case, string) {
 				}
 			}
 		}
-		if !c.Rows[0][j].Null {
-			t := c13TypeOf(c.Types[j])
-			cls := c13Classes(t.Fam, c.Flags[j]&c13Unsigned != 0)
-			if len(cls) > 0 && cls[0] != c.Rows[0][j].Class {
-				old := c.Rows[0][j]
-				c.Rows[0][j] = c13Cell{Text: hex.EncodeToString(c13Value(t, c.Flags[j]&c13Unsigned != 0, cls[0], kit.NewRand(7))), Class: cls[0]}
+		for ri := range c.Rows {
+			if c.Rows[ri][j].Null {
+				continue
+			}
+			if sv := simplest(c.Types[j], c.Flags[j]); !sv.Null && sv.Class != c.Rows[ri][j].Class {
+				old := c.Rows[ri][j]
+				c.Rows[ri][j] = sv
 				if failing(c) != clause {
-					c.Rows[0][j] = old
+					c.Rows[ri][j] = old
 				}
 			}
 		}
@@ -752,9 +851,27 @@ func (m *c13Mon) shrink(c c13Case, row int, clause string) (c13Case, string) {
 	return c, clause
 }
 
+// c13NullFlip: some column is NULL in one row and a value in a later row (or the reverse).
+func c13NullFlip(rows [][]c13Cell) (nullThenValue, valueThenNull bool) {
+	for ri := 1; ri < len(rows); ri++ {
+		for i := range rows[ri] {
+			if rows[ri-1][i].Null && !rows[ri][i].Null {
+				nullThenValue = true
+			}
+			if !rows[ri-1][i].Null && rows[ri][i].Null {
+				valueThenNull = true
+			}
+		}
+	}
+	return
+}
+
 func (m *c13Mon) run(c c13Case) {
+	results := c13RunResult(c.Types, c.Flags, c.Rows)
+	m.rec.Count(fmt.Sprintf("results.rows=%d", len(c.Rows)), 1)
+	allOK := true
 	for ri, row := range c.Rows {
-		res := c13RunRow(c.Types, c.Flags, row)
+		res := results[ri]
 		m.rec.Eval(1)
 		out := "ok"
 		switch {
@@ -763,7 +880,13 @@ func (m *c13Mon) run(c c13Case) {
 		case res.Err != "":
 			out = "error-" + res.Err
 		}
+		if out != "ok" {
+			allOK = false
+		}
 		m.rec.Count("rows."+out, 1)
+		if len(c.Rows) > 1 {
+			m.rec.Count("rows.checked_inside_multi_row_result", 1)
+		}
 		for i, tc := range c.Types {
 			t := c13TypeOf(tc)
 			cl := row[i].Class
@@ -783,26 +906,39 @@ func (m *c13Mon) run(c c13Case) {
 		}
 		if out == "ok" {
 			m.rec.Nontrivial(fmt.Sprintf("row/cols=%d/nulls=%d", len(c.Types), c13Nulls(row)))
-			if c13RowBytes(row) < 120 {
+			if len(c.Rows) == 1 && c13RowBytes(row) < 120 {
 				m.rec.Sample(map[string]interface{}{"types": c.Types, "flags": c.Flags, "row": row, "decoded": c13Strs(res.Dec)})
 			}
 			continue
 		}
-		if res.Err != "" {
-			if len(c.Types) == 1 && !row[0].Null {
-				t := c13TypeOf(c.Types[0])
-				m.rec.Count("single-column.error."+t.Name, 1)
-				if cls := c13Classes(t.Fam, c.Flags[0]&c13Unsigned != 0); cls[0] == row[0].Class {
-					m.erring[t.Name] = true
-				} else if !m.erring[t.Name] {
-					m.erring[t.Name+":"+row[0].Class] = true
-				}
+		if res.Err != "" && len(c.Rows) == 1 && len(c.Types) == 1 && !row[0].Null {
+			t := c13TypeOf(c.Types[0])
+			m.rec.Count("single-column.error."+t.Name, 1)
+			if cls := c13Classes(t.Fam, c.Flags[0]&c13Unsigned != 0); cls[0] == row[0].Class {
+				m.erring[t.Name] = true
+			} else if !m.erring[t.Name] {
+				m.erring[t.Name+":"+row[0].Class] = true
 			}
-			continue
 		}
-		sc, scl := m.shrink(c, ri, res.Clause)
-		sres := c13RunRow(sc.Types, sc.Flags, sc.Rows[0])
-		if len(sc.Types) == 1 && !sc.Rows[0][0].Null {
+	}
+	if len(c.Rows) > 1 && allOK {
+		a, b := c13NullFlip(c.Rows)
+		m.rec.Nontrivial(fmt.Sprintf("result/rows=%d/cols=%d/null-then-value=%v/value-then-null=%v", len(c.Rows), len(c.Types), a, b))
+		if a {
+			m.rec.Count("results.ok_with_null_then_value_in_a_column", 1)
+		}
+		if len(c.Rows) <= 3 && len(c.Types) <= 4 && c13RowBytes(c.Rows[0]) < 60 {
+			dec := []interface{}{}
+			for _, r := range results {
+				dec = append(dec, c13Strs(r.Dec))
+			}
+			m.rec.Sample(map[string]interface{}{"types": c.Types, "flags": c.Flags, "rows": c.Rows, "decoded": dec})
+		}
+	}
+	if _, res := c13First(results); res.Clause != "" {
+		sc, scl := m.shrink(c, res.Clause)
+		_, sres := c13First(c13RunResult(sc.Types, sc.Flags, sc.Rows))
+		if len(sc.Rows) == 1 && len(sc.Types) == 1 && !sc.Rows[0][0].Null {
 			t := c13TypeOf(sc.Types[0])
 			if cls := c13Classes(t.Fam, sc.Flags[0]&c13Unsigned != 0); len(cls) > 0 && cls[0] == sc.Rows[0][0].Class {
 				m.broken[t.Name] = true
@@ -847,7 +983,7 @@ func c13Cells(t c13Type, unsigned bool, class string, r *kit.Rand) c13Cell {
 }
 
 func TestVerif_C13(t *testing.T) {
-	rec := kit.Start("C13", "exploration", "(1) every column type code x flag combination (NOT_NULL, UNSIGNED, BINARY, ZEROFILL) x every value class of the type (extremes, zero, negative, fractional, zero/partial/invalid dates, >24h and negative times, 250/251/65535/65536-byte strings) as a single-column row; (2) NULL in every position and NULL masks for 1..20 columns; (3) random rows of 1..20 random columns; non-trivial = distinct (type, signedness, value class, outcome) of columns whose row was decoded, plus distinct (column count, NULL count) of rows")
+	rec := kit.Start("C13", "exploration", "(1) every column type code x flag combination (NOT_NULL, UNSIGNED, BINARY, ZEROFILL) x every value class of the type (extremes, zero, negative, fractional, zero/partial/invalid dates, >24h and negative times, 250/251/65535/65536-byte strings) as a single-column row; (2) NULL in every position and NULL masks for 1..20 columns, as single-row results and as 3..6-row results whose NULL masks change from row to row (every column position NULL in one row and a value in the next, and the reverse); (3) random results of 1..6 rows x 1..20 random columns with fresh values and an independent NULL mask per row; all rows of a result go through ONE BuildBinaryResultSet call and are decoded afterwards; non-trivial = distinct (type, signedness, value class, outcome) of columns whose row was decoded, distinct (column count, NULL count) of rows, distinct (row count, column count, NULL-to-value / value-to-NULL transition) of multi-row results")
 	rec.Assume("text values are those a MySQL server can send for the column type (ranges by width/sign, DECIMAL without exponent, FLOAT/DOUBLE as shortest round-trip or 6/17 significant digits)")
 	rec.Assume("DECIMAL is compared byte-for-byte (a changed scale is reported under its own clause decimal-text-differs-same-number)")
 	rec.Assume("an error returned by ParseText or BuildBinaryResultSet satisfies the property (the proxy reports an error instead of a different value); such outcomes are counted, not judged")
@@ -908,61 +1044,109 @@ func TestVerif_C13(t *testing.T) {
 			return ty, fl, c13Cells(ty, uns, cl, r)
 		}
 	}
-	build := func(n int, clean bool, null func(i int) bool) c13Case {
-		c := c13Case{Rows: [][]c13Cell{{}}}
+	allowed := func(ty c13Type, cl string, clean bool) bool {
+		return !clean || !(m.broken[ty.Name] || m.broken[ty.Name+":"+cl] || m.erring[ty.Name] || m.erring[ty.Name+":"+cl])
+	}
+	// a fresh value (any allowed class, so lengths differ from row to row) for an existing column
+	freshCell := func(code, fl int, clean bool) c13Cell {
+		ty := c13TypeOf(code)
+		uns := fl&c13Unsigned != 0
+		cls := c13Classes(ty.Fam, uns)
+		if len(cls) == 0 {
+			return c13Cell{Null: true}
+		}
+		for try := 0; try < 20; try++ {
+			cl := cls[r.Intn(len(cls))]
+			if (strings.HasPrefix(cl, "len65") || cl == "long") && !r.Chance(1, 40) {
+				continue
+			}
+			if allowed(ty, cl, clean) {
+				return c13Cells(ty, uns, cl, r)
+			}
+		}
+		return c13Cells(ty, uns, cls[0], r)
+	}
+	// build: n random columns and len(nulls) rows; nulls[k](i) tells whether column i of row k is NULL
+	build := func(n int, clean bool, nulls ...func(i int) bool) c13Case {
+		c := c13Case{Rows: make([][]c13Cell, len(nulls))}
 		for i := 0; i < n; i++ {
 			ty, fl, cell := pickCol(clean)
-			if null(i) {
-				cell = c13Cell{Null: true}
-			}
 			c.Types, c.Flags = append(c.Types, ty.Code), append(c.Flags, fl)
-			c.Rows[0] = append(c.Rows[0], cell)
+			for k, null := range nulls {
+				switch {
+				case null(i):
+					c.Rows[k] = append(c.Rows[k], c13Cell{Null: true})
+				case k == 0:
+					c.Rows[k] = append(c.Rows[k], cell)
+				default:
+					c.Rows[k] = append(c.Rows[k], freshCell(ty.Code, fl, clean))
+				}
+			}
 		}
 		return c
 	}
-	// (2) NULL positions and masks
+	all := func(i int) bool { return true }
+	none := func(i int) bool { return false }
+	// (2) NULL positions and masks, single-row results
 	for n := 1; n <= 20; n++ {
 		for pos := 0; pos < n; pos++ {
 			p := pos
 			m.run(build(n, true, func(i int) bool { return i == p }))
 			m.run(build(n, true, func(i int) bool { return i != p }))
 		}
-		m.run(build(n, true, func(i int) bool { return true }))
-		m.run(build(n, true, func(i int) bool { return false }))
+		m.run(build(n, true, all))
+		m.run(build(n, true, none))
 		for k := 0; k < kit.N(10, 200); k++ {
 			mask := r.Uint64()
 			m.run(build(n, true, func(i int) bool { return mask>>uint(i)&1 == 1 }))
 		}
 	}
-	// (3) random rows; 1 in 8 rows may contain the types/classes found failing or refused on
+	// (2b) multi-row results whose NULL masks change from row to row: each column position
+	// NULL in one row and a value in the next (both orders), all-NULL / no-NULL / all-NULL,
+	// complementary masks, and 3..6 rows of independent random masks
+	for n := 1; n <= 20; n++ {
+		for pos := 0; pos < n; pos++ {
+			p := pos
+			only := func(i int) bool { return i == p }
+			m.run(build(n, true, only, none, only))
+			m.run(build(n, true, none, only, none))
+			m.run(build(n, true, only, func(i int) bool { return i == (p+1)%n }, func(i int) bool { return i == (p+2)%n }))
+		}
+		m.run(build(n, true, all, none, all))
+		m.run(build(n, true, none, all, none))
+		m.run(build(n, true, all, all, none, none))
+		for k := 0; k < kit.N(6, 100); k++ {
+			mask := r.Uint64()
+			a := func(i int) bool { return mask>>uint(i)&1 == 1 }
+			b := func(i int) bool { return mask>>uint(i)&1 == 0 }
+			m.run(build(n, true, a, b, a))
+			masks := make([]func(i int) bool, r.Range(3, 6))
+			for q := range masks {
+				mq := r.Uint64() & r.Uint64()
+				masks[q] = func(i int) bool { return mq>>uint(i)&1 == 1 }
+			}
+			m.run(build(n, true, masks...))
+		}
+	}
+	// (3) random results; half of them have 2..6 rows with fresh values and an independent
+	// NULL mask per row; 1 in 8 may contain the types/classes found failing or refused on
 	// their own (which would otherwise mask the other columns of most rows)
-	for k := 0; k < kit.N(30000, 1000000); k++ {
+	for k := 0; k < kit.N(12000, 400000); k++ {
 		n := r.Range(1, 20)
 		if r.Chance(1, 2) {
 			n = r.Range(1, 5)
 		}
 		clean := !r.Chance(1, 8)
-		c := build(n, clean, func(i int) bool { return r.Chance(1, 6) })
-		// a second row with fresh values for the same metadata, as in a real result set
-		if r.Chance(1, 4) {
-			row2 := make([]c13Cell, n)
-			for i := range row2 {
-				ty := c13TypeOf(c.Types[i])
-				uns := c.Flags[i]&c13Unsigned != 0
-				cls := c13Classes(ty.Fam, uns)
-				if len(cls) == 0 || r.Chance(1, 6) {
-					row2[i] = c13Cell{Null: true}
-					continue
-				}
-				cl := c.Rows[0][i].Class
-				if cl == "" || strings.HasPrefix(cl, "len65") || cl == "long" {
-					cl = cls[0]
-				}
-				row2[i] = c13Cells(ty, uns, cl, r)
-			}
-			c.Rows = append(c.Rows, row2)
+		nrows := 1
+		if r.Chance(1, 2) {
+			nrows = r.Range(2, 6)
 		}
-		m.run(c)
+		nulls := make([]func(i int) bool, nrows)
+		for q := range nulls {
+			den := []int{6, 6, 2, 3}[r.Intn(4)]
+			nulls[q] = func(i int) bool { return r.Chance(1, den) }
+		}
+		m.run(build(n, clean, nulls...))
 	}
 }
 
